@@ -4,10 +4,43 @@
 // -tags verif through the build overlay of /verif. Nothing here changes the package's behaviour.
 package state
 
-import "time"
+import (
+	"time"
+
+	"github.com/hashicorp/consul/agent/structs"
+)
 
 // VerifC01SetLockDelay plants a lock-delay expiry for a key in the store's local (non-replicated)
 // Delay map, as a forced session invalidation on this server would have done at wall-clock time now.
 func (s *Store) VerifC01SetLockDelay(key string, now time.Time, d time.Duration) {
 	s.lockDelay.SetExpiration(key, now, d, nil)
+}
+
+// VerifC01WriteUsageDeltas runs the unexported writeUsageDeltas (the function every committing
+// transaction calls with the delta map computed from its changes) on its own, in a write transaction at
+// idx, and commits it.
+func (s *Store) VerifC01WriteUsageDeltas(idx uint64, deltas map[string]int) error {
+	tx := s.db.WriteTxn(idx)
+	defer tx.Abort()
+	if err := writeUsageDeltas(tx, idx, deltas); err != nil {
+		return err
+	}
+	return tx.Commit()
+}
+
+// VerifC01ValidateJWTProvider runs the unexported validateJWTProvider on the given sets of stored and
+// referenced provider names and returns the error text ("" when there is none).
+func VerifC01ValidateJWTProvider(existing, referenced []string) string {
+	ex := map[string]*structs.JWTProviderConfigEntry{}
+	for _, n := range existing {
+		ex[n] = &structs.JWTProviderConfigEntry{Name: n}
+	}
+	ref := map[string]struct{}{}
+	for _, n := range referenced {
+		ref[n] = struct{}{}
+	}
+	if err := validateJWTProvider(ex, ref); err != nil {
+		return err.Error()
+	}
+	return ""
 }
